@@ -354,7 +354,7 @@ def analyse_proto(b):
         seq.append(("ev", evs[emitted]))
         emitted += 1
     st, lastw, readval, hobs, fail = {}, 0, {}, [], None
-    stats = {"ops": 0, "failed": 0, "timeouts": 0, "late_effects": 0, "gates": 0}
+    stats = {"ops": 0, "failed": 0, "timeouts": 0, "late_effects": 0, "gates": 0, "conn_failures": 0}
 
     def bad(msg, pos):
         nonlocal fail
@@ -421,6 +421,16 @@ def analyse_proto(b):
                     hobs.append("HRet %d (ROk %d)" % (p, rv))
             elif what == "gate":
                 stats["gates"] += 1
+                p = int(x[1])
+                s = st.get(p, ("ready",))
+                if x[3] == "f" and s[0] == "invoked":
+                    # p.read / p.write returned an error before its first rpc left the client (GetInsecureConnection failed,
+                    # e.g. the dial ran into the short deadline of an ST round): in the model the operation's rpc phase
+                    # "starts" and "returns an error" with nothing in between
+                    stats["conn_failures"] += 1
+                    st[p] = ("returned", s[1], s[2], "err", None)
+                    hobs.append("HStart %d" % p)
+                    hobs.append("HRet %d RErr" % p)
                 hobs.append("HGate %d %s" % (int(x[1]), cbool(x[5] == "1")))
             elif what == "flags":
                 hobs.append("HFlags %d %s %s" % (int(x[1]), cbool(x[2] == "1"), cbool(x[3] == "1")))
@@ -607,7 +617,7 @@ def run(ck):
         ck.violation("protocol executor returned %d results for %d cases" % (len(blocks), len(pcases)), {"kind": "executor", "tail": pres[-20:]}, found_input=False)
         return
     pitems, pitem_case, clean_b = [], [], []   # clean_b: no crash, no well-formedness monitor failure
-    tot = {"ops": 0, "failed": 0, "timeouts": 0, "late_effects": 0, "gates": 0}
+    tot = {"ops": 0, "failed": 0, "timeouts": 0, "late_effects": 0, "gates": 0, "conn_failures": 0}
     skipped = 0
     for ci, ((sd, np, cmds), b) in enumerate(zip(pcases, blocks)):
         ck.count_case(plines[ci], nontrivial=len(b["events"]) > 0)
